@@ -25,6 +25,7 @@ type replayFile struct {
 	Disks   map[string]map[string]string `json:"disks"`
 	Choices []uint64                     `json:"choices"`
 	Params  map[string]uint64            `json:"params"`
+	Events  []string                     `json:"events"`
 }
 
 var (
@@ -224,9 +225,37 @@ func Mark(v uint64)                        {}
 
 // AllocRep switches an allocator (a *alloc.Alloc) to representative mode: its k-th allocation returns 0
 // or base+k*stride (symbolic execution only; natively the real allocator runs).
-func AllocRep(a interface{}, base, stride uint64) {}
+//
+// Native replay: the real first-fit allocator runs. To make it follow the replayed path, every number
+// other than the ones the model's path allocated from this allocator (base + k*stride, listed in the
+// replay file's event trace) is marked used, so that the allocator hands out exactly those numbers, in
+// the same order, and then reports exhaustion where the path saw an allocation fail.
+func AllocRep(a interface{}, base, stride, max uint64) {
+	al, ok := a.(interface{ MarkUsed(uint64) })
+	if !ok {
+		return
+	}
+	mu.Lock()
+	load()
+	allowed := map[uint64]bool{}
+	for _, ev := range rp.Events {
+		if strings.HasPrefix(ev, "alloc(") {
+			n, err := strconv.ParseUint(strings.TrimSuffix(strings.TrimPrefix(ev, "alloc("), ")"), 10, 64)
+			if err == nil && n >= base && (n-base)%stride == 0 {
+				allowed[n] = true
+			}
+		}
+	}
+	mu.Unlock()
+	for n := uint64(1); n < max; n++ {
+		if !allowed[n] {
+			al.MarkUsed(n)
+		}
+	}
+}
 func Watch(typ string)                     {}
 func Events() []Event                      { return nil }
+func AccessCount() uint64                  { return 0 }
 
 // ---- disk
 
